@@ -32,10 +32,9 @@ def run(ctx):
     b = ctx.build("c05", "c05.cpp")
     if b:
         tr = ctx.scratch.path("c05.ndjson")
-        rc, out = ctx.run(b, [tr, pairs, ctx.tier])
-        if rc != 0:
-            raise vlib.Infra("c05 harness failed rc=%d: %s" % (rc, out[-2000:]))
-        ctx.validate(TRACE_MODULE, tr, label="pure")
+        ok, out = ctx.run_harness(b, [tr, pairs, ctx.tier], tr)
+        if ok:
+            ctx.validate(TRACE_MODULE, tr, label="pure")
     ctx.rule("8-bit types: every value (exhaustive) through every scalar/vector overload and every documented (offset,bits) pair; "
              "16-bit: every value in the thorough tier, lattice + random in quick; 32/64-bit: single-bit, run-of-ones, alternating, "
              "boundary patterns + seeded random; carry family: all lattice pairs + random; each event judged bit-exactly by TLC "
